@@ -8,8 +8,10 @@ SRC = '/var/tmp/mut_out'
 DST = '/verif/seeded'
 rows = []
 for d in sorted(glob.glob(f'{SRC}/*/m*')):
-    if not os.path.isfile(f'{d}/patch.diff'):
+    if not os.path.isfile(f'{d}/patch.diff') or os.path.isfile(f'{d}/SKIP'):
         continue
+    if not d.endswith('p') and os.path.isfile(f'{d}p/patch.diff'):
+        continue  # superseded by the variant ported onto the repaired tree
     name = d.split('/')[-2]
     m = d.split('/')[-1]
     prop = re.sub(r'^R\d', '', name)
@@ -31,6 +33,8 @@ for d in sorted(glob.glob(f'{SRC}/*/m*')):
     notes = ''
     if os.path.isfile(f'{d}/NOTE'):
         notes = open(f'{d}/NOTE').read().strip()
+    if m.endswith('p') and not meta and os.path.isfile(f'{d[:-1]}/meta.json'):
+        meta = json.load(open(f'{d[:-1]}/meta.json'))
     ok = confirm.get('with_patch_pass_fail', '').startswith('275 0') and confirm.get('with_patch_and_demo_pass_fail', '').endswith(' 1') and confirm.get('demo_only_pass_fail', '').endswith(' 0')
     out = f'{DST}/{prop}/{tag}'
     os.makedirs(out, exist_ok=True)
